@@ -117,9 +117,12 @@ def dummy1d(logpfcn, x0, pparams, nsamples=100, lb=-np.inf, ub=np.inf, **unused)
     tsamples = tlg * (0.5 * (tu - tl)) + (0.5 * (tu + tl))  # (n, *nx)
     xsamples = torch.tan(tsamples)
     wt = torch.cos(tsamples)**(-2.)
-    wp = torch.empty_like(wt)
+    logp = torch.empty_like(wt)
     for i in range(nsamples):
-        wp[i] = torch.exp(logpfcn(xsamples[i], *pparams))
+        logp[i] = logpfcn(xsamples[i], *pparams)
+    # log p is known up to a constant only: take the largest value out before
+    # exponentiating, so that the weights neither overflow nor all vanish
+    wp = torch.exp(logp - logp.max())
 
     wsamples = wt * wlg * wp
     wsamples = wsamples / wsamples.sum()
